@@ -200,22 +200,38 @@ fn handshake(s: &[usize], c: &[usize]) -> Result<(), Bad> {
     });
     let same = s == c;
     server.world_mut().resource_mut::<RepliconServer>().set_running(true);
+    // a bystander built with the server's own protocol connects first
+    let mut bystander = build(s);
+    let by_conn = server.world_mut().spawn(ConnectedClient { max_size: 1200 }).id();
+    bystander.world_mut().resource_mut::<RepliconClient>().set_status(RepliconClientStatus::Connected);
     let conn = server.world_mut().spawn(ConnectedClient { max_size: 1200 }).id();
     client.world_mut().resource_mut::<RepliconClient>().set_status(RepliconClientStatus::Connected);
     let mut to_client: Vec<(usize, bevy_replicon::bytes::Bytes)> = Vec::new();
+    let mut to_bystander: Vec<(usize, bevy_replicon::bytes::Bytes)> = Vec::new();
+    // ... and a third connection goes away in the frame in which the handshakes arrive
+    let mut leaver = Some(server.world_mut().spawn(ConnectedClient { max_size: 1200 }).id());
     for _ in 0..3 {
-        client.update();
-        let sent: Vec<_> = client.world_mut().resource_mut::<RepliconClient>().drain_sent().collect();
-        for (ch, m) in sent {
-            // Only the handshake channel is common to both protocols.
-            if ch == 1 {
-                server.world_mut().resource_mut::<RepliconServer>().insert_received(conn, ch, m);
+        for (app, id) in [(&mut bystander, by_conn), (&mut client, conn)] {
+            app.update();
+            let sent: Vec<_> = app.world_mut().resource_mut::<RepliconClient>().drain_sent().collect();
+            for (ch, m) in sent {
+                // Only the handshake channel is common to both protocols.
+                if ch == 1 {
+                    server.world_mut().resource_mut::<RepliconServer>().insert_received(id, ch, m);
+                }
             }
+        }
+        if let Some(l) = leaver.take() {
+            server.world_mut().entity_mut(l).despawn();
         }
         server.update();
         let sent: Vec<_> = server.world_mut().resource_mut::<RepliconServer>().drain_sent().collect();
-        for (_, ch, m) in sent {
-            to_client.push((ch, m));
+        for (to, ch, m) in sent {
+            if to == conn {
+                to_client.push((ch, m));
+            } else {
+                to_bystander.push((ch, m));
+            }
         }
     }
     let authorized = server.world().entity(conn).contains::<AuthorizedClient>();
@@ -235,6 +251,16 @@ fn handshake(s: &[usize], c: &[usize]) -> Result<(), Bad> {
         }
     } else if to_client.iter().any(|(ch, _)| *ch == 2) {
         return Err(bad("spurious-mismatch", "ProtocolMismatch was sent although the protocols are equal".into()));
+    }
+    // the bystander is compatible whatever the other client sent
+    if !server.world().entity(by_conn).contains::<AuthorizedClient>() {
+        return Err(bad("bystander-not-authorized", "a client with the server's protocol was not authorized while another client performed its handshake".into()));
+    }
+    if to_bystander.iter().any(|(ch, _)| *ch == 2) {
+        return Err(bad("bystander-notified", "ProtocolMismatch was sent to a client whose protocol equals the server's".into()));
+    }
+    if server.world().resource::<Requests>().0.contains(&by_conn) {
+        return Err(bad("bystander-disconnect-request", "a DisconnectRequest names a client whose protocol equals the server's".into()));
     }
     Ok(())
 }
